@@ -114,7 +114,7 @@ static std::string run_case(const Case& cs, long* steps_done = nullptr, long* fr
                 if (err.empty() && (n.force_.dx() != 0 || n.force_.dy() != 0 || n.force_.dz() != 0)) { snprintf(buf, sizeof buf, "force-accumulator-not-reset: step %d cell %u node %u", step + 1, ci, ni); err = buf; } } }
 #if DYNAMIC_MODEL_INDEX == 0
         // coupled groups: the total momentum of the group follows the law applied to the averaged node (individual shares are not prescribed)
-        for (auto& g : groups) { if (!err.empty()) break; double tot[3] = {0, 0, 0}, exp[3] = {0, 0, 0}, sc_ = 0; for (auto& mem : g) { const vec3& m = cells[mem.first]->node_lst_[mem.second].momentum_; tot[0] += m.dx(); tot[1] += m.dy(); tot[2] += m.dz(); for (int k = 0; k < 3; k++) { exp[k] += ref[mem.first].n[mem.second].p[k]; sc_ = std::max(sc_, std::fabs(ref[mem.first].n[mem.second].p[k])); } }
+        for (auto& g : groups) { if (!err.empty()) break; double tot[3] = {0, 0, 0}, exp[3] = {0, 0, 0}, sc_ = 0; for (auto& mem : g) { const vec3& m = cells[mem.first]->node_lst_[mem.second].momentum_; tot[0] += m.dx(); tot[1] += m.dy(); tot[2] += m.dz(); for (int k = 0; k < 3; k++) { exp[k] += ref[mem.first].n[mem.second].p[k]; sc_ = std::max(sc_, std::fabs(ref[mem.first].n[mem.second].p[k])); } sc_ = std::max({sc_, std::fabs(m.dx()), std::fabs(m.dy()), std::fabs(m.dz())});   /* model 2 keeps individual momenta: the total is a sum of terms that may be much larger than it */ }
             for (int k = 0; k < 3; k++) if (std::fabs(tot[k] - exp[k]) > 1e-12 * (sc_ * g.size() + 1e-300)) { snprintf(buf, sizeof buf, "total-momentum-of-coupled-group-differs-from-law: step %d axis %d: %.17g expected %.17g", step + 1, k, tot[k], exp[k]); err = buf; break; } }
 #endif
         // coupled groups: identical displacement
